@@ -2,6 +2,7 @@ package check
 
 import (
 	"fmt"
+	"regexp"
 	"sort"
 	"strings"
 
@@ -69,20 +70,62 @@ func OracleNoPanic(prop string, r *harness.Result) []Violation {
 	return out
 }
 
-// panicShape identifies a panic by its innermost engine frame, not by message text.
+// panicShape identifies a panic by its innermost engine frame and a normalised form of its message
+// (node names, numbers and operators removed), not by the full text.
 func panicShape(value, stack string) string {
-	lines := strings.Split(stack, "\n")
-	for i, l := range lines {
-		if strings.Contains(l, "go.flow.arcalot.io/engine/") && !strings.Contains(l, "/zverif/") && !strings.Contains(l, "simrt") {
-			fn := strings.TrimSpace(l)
-			if k := strings.Index(fn, "("); k > 0 {
+	fn := ""
+	for _, l := range strings.Split(stack, "\n") {
+		if strings.Contains(l, "go.flow.arcalot.io/engine/") && !strings.Contains(l, "/zverif/") && !strings.HasPrefix(strings.TrimSpace(l), "/") {
+			fn = strings.TrimSpace(l)
+			if k := strings.LastIndex(fn, "("); k > 0 {
 				fn = fn[:k]
 			}
-			_ = i
-			return "panic in " + strings.TrimPrefix(fn, "go.flow.arcalot.io/engine/")
+			fn = strings.TrimPrefix(fn, "go.flow.arcalot.io/engine/")
+			break
 		}
 	}
-	return "panic: " + firstLines(value, 1)
+	return "panic in " + fn + ": " + msgClass(value)
+}
+
+var typeWords = map[string]bool{"uint64": true, "int64": true, "string": true, "float64": true, "bool": true, "int": true}
+
+// msgClass reduces an error message to its innermost reason with the variable parts removed.
+func msgClass(msg string) string {
+	segs := strings.Split(msg, " (")
+	reason := strings.TrimRight(segs[len(segs)-1], ")")
+	for i := len(segs) - 1; i > 0 && len(strings.Trim(reason, "0123456789) ")) == 0; i-- {
+		reason = strings.TrimRight(segs[i-1], ")")
+	}
+	var b strings.Builder
+	inQuote := false
+	var q strings.Builder
+	for _, c := range reason {
+		switch {
+		case c == '\'' || c == '"':
+			if inQuote {
+				if typeWords[q.String()] {
+					b.WriteString("'" + q.String() + "'")
+				} else {
+					b.WriteString("'?'")
+				}
+				q.Reset()
+			}
+			inQuote = !inQuote
+		case inQuote:
+			q.WriteRune(c)
+		case c >= '0' && c <= '9':
+			if s := b.String(); !strings.HasSuffix(s, "N") {
+				b.WriteRune('N')
+			}
+		default:
+			b.WriteRune(c)
+		}
+	}
+	out := b.String()
+	if len(out) > 120 {
+		out = out[:120]
+	}
+	return out
 }
 
 func firstLines(s string, n int) string {
@@ -511,28 +554,125 @@ func leakShape(l []string) string {
 func OracleTypes(prop string, v *View) []Violation {
 	var out []Violation
 	c := v.C0
+	kinds := engineKinds(v)
+	add := func(vv Violation) {
+		if vv.Rule == "evaluation-fails-on-declared-types" {
+			// what identifies the input: how plugin integers and engine-generated objects are used
+			for _, k := range kinds {
+				if strings.HasPrefix(k, "plugin integer") || k == "crashed.error.<field>" || k == "deploy_failed.error.<field>" {
+					vv.Parts = append(vv.Parts, k)
+				}
+			}
+		}
+		if len(kinds) > 0 {
+			vv.Msg += "; engine-generated values referenced by the workflow: " + strings.Join(kinds, ", ")
+		}
+		out = append(out, vv)
+	}
 	if c != nil && c.Returned {
 		if c.ErrClass == "bug" {
-			out = append(out, viol(prop, "bug-error", bugShape(c.Err), "run returned an internal consistency error: %s", c.Err))
+			add(viol(prop, "bug-error", bugShape(c.Err), "run returned an internal consistency error: %s", c.Err))
+		} else if c.Err != "" && strings.Contains(c.Err, "resolve expressions") && len(v.Facts.RunError) == 0 {
+			// the workflow was accepted, every value has the declared type according to the model, and still
+			// an expression cannot be evaluated: some value does not have its declared type
+			add(viol(prop, "evaluation-fails-on-declared-types", msgClass(c.Err), "an accepted workflow failed to evaluate although the model finds no run-time fault: %s", c.Err))
 		}
 		if c.Err == "" && v.R.Prepared != nil {
 			sch, ok := v.R.Prepared.OutputSchema()[c.OutputID]
 			if !ok {
-				out = append(out, viol(prop, "output-schema", "", "returned output %q has no declared schema", c.OutputID))
+				add(viol(prop, "output-schema", "", "returned output %q has no declared schema", c.OutputID))
 			} else if _, err := sch.Unserialize(v.R.Clients[0].OutputData); err != nil {
-				// the canonical form has string keys; the schema accepts both
-				out = append(out, viol(prop, "output-schema", "", "returned output %q does not validate against its declared schema: %v", c.OutputID, err))
+				add(viol(prop, "output-schema", msgClass(err.Error()), "returned output %q does not validate against its declared schema: %v", c.OutputID, err))
 			}
 		}
 	}
 	for _, b := range v.R.BugLogs {
-		out = append(out, viol(prop, "bug-log", bugShape(b), "engine logged an internal consistency error: %s", b))
+		add(viol(prop, "bug-log", bugShape(b), "engine logged an internal consistency error: %s", b))
 		break
 	}
 	return out
 }
 
+// engineKinds lists the kinds of engine-generated stage outputs (not plugin outputs) the program
+// refers to anywhere: they identify the input shape of a type-soundness finding.
+func engineKinds(v *View) []string {
+	kinds := map[string]bool{}
+	visit := func(e *ir.Expr) {
+		ir.Walk(e, func(x *ir.Expr) {
+			if x.K != "ref" || len(x.Path) < 3 || x.Path[0] != "steps" {
+				return
+			}
+			stage := x.Path[2].(string)
+			st := v.C.Program.Step(x.Path[1].(string))
+			if stage == "outputs" && (st == nil || st.Kind == "plugin") {
+				if uses := arithmeticUse(v.C.Program, x); uses != "" {
+					kinds["plugin integer used in "+uses] = true
+				}
+				return
+			}
+			k := stage
+			if len(x.Path) > 3 {
+				k += "." + x.Path[3].(string)
+			}
+			if len(x.Path) > 4 {
+				k += ".<field>"
+			}
+			if st != nil && st.Kind != "plugin" {
+				k = "loop " + k
+			}
+			kinds[k] = true
+		})
+	}
+	for _, s := range v.C.Program.Steps {
+		for _, e := range s.Exprs() {
+			visit(e)
+		}
+	}
+	for _, o := range v.C.Program.Outputs {
+		visit(o.E)
+	}
+	return keys(kinds)
+}
+
+// arithmeticUse reports whether the reference x occurs as an operand of an operator or a function.
+func arithmeticUse(p *ir.Program, x *ir.Expr) string {
+	use := ""
+	check := func(e *ir.Expr) {
+		ir.Walk(e, func(y *ir.Expr) {
+			if y.K == "op" || y.K == "call" {
+				for _, a := range y.Args {
+					if a == x {
+						if y.K == "op" {
+							use = "an operator"
+						} else {
+							use = "a function call"
+						}
+					}
+				}
+			}
+		})
+	}
+	for _, s := range p.Steps {
+		for _, e := range s.Exprs() {
+			check(e)
+		}
+	}
+	for _, o := range p.Outputs {
+		check(o.E)
+	}
+	return use
+}
+
+var convRe = regexp.MustCompile(`([\w.\[\]\*]+) cannot be converted to an? (\w+)`)
+
 func bugShape(msg string) string {
+	if m := convRe.FindStringSubmatch(msg); m != nil {
+		return bugShape0(msg) + ": " + m[1] + " cannot be converted to " + m[2]
+	}
+	return bugShape0(msg)
+}
+
+func bugShape0(msg string) string {
 	// keep the part up to the first parenthesis: the kind of bug, not the data
 	m := msg
 	if i := strings.Index(strings.ToLower(m), "bug:"); i >= 0 {
